@@ -103,7 +103,7 @@ class C13(WigBedProp):
             bed = g % 3 == 2
             names, sizes, data, tags = bbgen.gen_genome_scale(r, bed=bed, value_mode=r.choice(["dec", "bits"]), nitems=r.choice([30, 60, 100]))
             o = {"compress": 1, "ips": r.choice([64, 1024]), "bs": r.choice([2, 256]), "zooms": r.choice(["auto", "none", "100000,400000"]), "pass": 1 + g % 2, "inmem": g % 2,
-                 "rt": "mt", "threads": 2, "chan": 100, "src": ("iter", "file", "par")[g % 3], "sort": "all"}
+                 "rt": "mt", "threads": 2, "chan": 100, "src": ("iter", "file", "par")[g % 3], "sort": "all", "izs": 100000}
             lines = [bbgen.opt_line(o)] + (bbgen.bed_lines(names, sizes, data) if bed else bbgen.wig_lines(names, sizes, data))
             out.append(CaseT(f"genome{g}", "bed" if bed else "wig", [], lines, {"valid_genome_scale", f"src_{o['src']}", "bed" if bed else "wig"}))
         # valid degenerate inputs: must be accepted and must return
